@@ -170,6 +170,63 @@ func genC14(c *Ctx) {
 		ops = append(ops, "st", "rs", "st", "r1", "r64", "r65", "u1000", "p5", "sm6,3", "st")
 		emit("store-restore-offset", seed, cust, ops)
 	}
+	// snapshots are values: a state stored earlier restores at ITS offset whatever the generator, later Store calls or
+	// writes into other returned slices did in between; and writing into a returned slice does not touch the generator.
+	// The model evaluates "<before> rs <after>" (an immediate restore); the implementation keeps the slice returned
+	// by Store, runs the unrelated operations, restores from the kept slice, then runs <after>.
+	for i := 0; i < nSeq; i++ {
+		sd, cu := c.bytes(32), c.bytes(c.intn(13))
+		mk := func(k int, withStore bool) []string {
+			var ops []string
+			for j := 0; j < k; j++ {
+				if withStore && c.intn(3) == 0 {
+					ops = append(ops, "st")
+				} else {
+					ops = append(ops, fmt.Sprintf("r%d", sizes[c.intn(len(sizes))]))
+				}
+			}
+			return ops
+		}
+		before, between, after := mk(c.intn(4), true), mk(1+c.intn(4), true), append(mk(1+c.intn(3), false), "st")
+		between = append(between, "st")
+		scribble := c.intn(2) == 0
+		ans := guard(func() string {
+			g, err := random.NewChacha20PRG(sd, cu)
+			if err != nil {
+				return "err"
+			}
+			out := "ok" + prgOps(g, before)
+			snap := g.Store() // kept by reference, never copied
+			_ = prgOps(g, between)
+			if scribble { // a later snapshot is the caller's to overwrite
+				later := g.Store()
+				for j := range later {
+					later[j] ^= 0xFF
+				}
+			}
+			g2, err := random.RestoreChacha20PRG(snap)
+			if err != nil {
+				return out + " err"
+			}
+			return out + " ok" + prgOps(g2, after)
+		})
+		ops := append(append(append([]string{}, before...), "rs"), after...)
+		c.Case("snapshot-independent", fmt.Sprintf("prg %s %s %s", hx(sd), hx(cu), strings.Join(ops, " ")), ans)
+		// and the generator itself is not disturbed by what the caller does to a returned snapshot
+		ans2 := guard(func() string {
+			g, err := random.NewChacha20PRG(sd, cu)
+			if err != nil {
+				return "err"
+			}
+			out := "ok" + prgOps(g, before)
+			s := g.Store()
+			for j := range s {
+				s[j] ^= 0xFF
+			}
+			return out + prgOps(g, after)
+		})
+		c.Case("snapshot-scribbled", strings.TrimSpace(fmt.Sprintf("prg %s %s %s", hx(sd), hx(cu), strings.Join(append(append([]string{}, before...), after...), " "))), ans2)
+	}
 	// store/restore around multiples of 64 far into the stream (counter given through Restore)
 	for i := 0; i < nSeq; i++ {
 		blocks := c.rng.Uint64N(1 << 31)
